@@ -82,6 +82,7 @@ def zero_read_switch(body, fl):
                 from_read = True
         if from_read:
             zero = a["true"] if a["op"] == "Eq" else a["false"]
+            a = dict(a, manufactured=sorted(str(x[1]) for x in leaves if x[0] == "const"))
             out.append((a, zero))
     return out
 
@@ -233,6 +234,11 @@ def receive_rule(rep, prog, cfg, fn, flavour):
                  "expected exactly one test of the read result against 0 in %s, found %d (a 0-byte read must be classified)" % (fn, len(zs)))
         return
     atom, zero_t = zs[0]
+    # the count that is classified is the read's own result: a 0 put there by the code (e.g. for a reset or a timeout reported
+    # by the transport as an error) would turn a transport failure into "end of stream", possibly a clean one
+    rep.check(not atom.get("manufactured"), rule, "%s/%s classified count is the read result" % (cfg, flavour), b.loc(b.blocks[atom["bb"]]["ts"]),
+              "the value tested against 0 after the read can also be the constant %s assigned by %s itself: a read error folded into a "
+              "0-byte read is reported as an end of stream (clean on a response boundary) instead of the transport's error" % (atom.get("manufactured"), fn))
     region = g.reach([zero_t])
     clean = ok_none_blocks(b) & region
     if not clean:
@@ -409,6 +415,9 @@ def connect_rule(rep, prog, cfg, fn, flavour):
                  "expected exactly one test of the read result against 0 in %s, found %d" % (fn, len(zs)))
         return
     atom, zero_t = zs[0]
+    rep.check(not atom.get("manufactured"), rule, "%s/%s classified count is the read result" % (cfg, flavour), b.loc(b.blocks[atom["bb"]]["ts"]),
+              "the value tested against 0 after the read can also be the constant %s assigned by %s itself (a read error folded into a 0-byte read)"
+              % (atom.get("manufactured"), fn))
     eofs = eof_error_blocks(b)
     other = reach(g.succs, [zero_t], avoid=list(eofs))
     leaks = [x for x in other if b.blocks[x]["t"]["k"] == "return"]
